@@ -130,10 +130,10 @@ class E2E:
                     client(sid).handle_encrypt_database(convert_database_keyword_to_bytes(json.loads(json.dumps(dbj))))
                 elif step == "upload_config":
                     svc = csvc.Service(sid)
-                    await self.net(svc, lambda: asyncio.wait_for(svc.handle_upload_config(wait=True, wait_callback_func=lambda f: None), 20))
+                    await self.net(svc, lambda: asyncio.wait_for(svc.handle_upload_config(wait=True, wait_callback_func=lambda f: None), 8))
                 elif step == "upload_edb":
                     svc = csvc.Service(sid)
-                    await self.net(svc, lambda: asyncio.wait_for(svc.handle_upload_encrypted_database(wait=True, wait_callback_func=lambda f: None), 20))
+                    await self.net(svc, lambda: asyncio.wait_for(svc.handle_upload_encrypted_database(wait=True, wait_callback_func=lambda f: None), 8))
                 out.append("ok")
             except Exception as e:
                 out.append(f"refused {type(e).__name__}: {str(e)[:80]}")
@@ -146,7 +146,7 @@ class E2E:
             got = []
             try:
                 svc = csvc.Service(sid)
-                await self.net(svc, lambda: asyncio.wait_for(svc.handle_keyword_search(w, wait=True, wait_callback_func=lambda f: got.append(f.result())), 20))
+                await self.net(svc, lambda: asyncio.wait_for(svc.handle_keyword_search(w, wait=True, wait_callback_func=lambda f: got.append(f.result())), 6))
                 r = svc.sse_module_loader.SSEResult.deserialize(got[0], svc.config_object)
                 results[w] = list(r.get_result_list())
             except Exception as e:
@@ -191,12 +191,19 @@ def correspond(ctx):
             e = E2E(env)
             await e.start_server()
             try:
+                bad = 0
                 for name, cfg, db, prof, sch in plan:
                     bdb = {k.encode(): v for k, v in db.items()}
                     words = list(bdb) + se.absent_keywords(rng, name, cfg, bdb, n=2)
                     words = [w for w in words if _decodable(w)] or list(bdb)
+                    if bad >= 4:
+                        outs.append(None)          # enough failing workflows to decide: do not wait out more time-outs
+                        continue
                     o, r = await e.workflow(name, cfg, json_db(db), words, sch)
                     outs.append((o, r, words, bdb))
+                    if any(not x.startswith("ok") for x in o) or any(isinstance(v, tuple) for v in r.values()) \
+                            or any(se.canon_result(name, v) != se.expected(name, bdb, w) for w, v in r.items() if not isinstance(v, tuple)):
+                        bad += 1
             finally:
                 await e.stop_server()
             return outs
@@ -207,7 +214,13 @@ def correspond(ctx):
             lines += ["cli reset", "cli cmd create 1 1", "cli cmd key", "cli cmd encrypt", "cli cmd upload_config", "cli cmd upload_edb", "cli cmd search"]
         mo = ctx.driver.batch(lines)
         it = iter(mo)
-        for (name, cfg, db, prof, sch), (o, r, words, bdb) in zip(plan, got):
+        for (name, cfg, db, prof, sch), g in zip(plan, got):
+            if g is None:
+                for _ in range(7):
+                    next(it)
+                res.count("workflows skipped after 4 failing ones")
+                continue
+            (o, r, words, bdb) = g
             next(it)
             model_steps = [next(it)[3:].split(" | ")[0] for _ in range(5)]
             model_search = next(it)[3:].split(" | ")[0]
